@@ -207,20 +207,14 @@ def _log_softmax_batch_rule(
     if x_bdim is None:
         return LogSoftmaxPlugin._PRIM.bind(x, axis=axis), None
 
-    rank = x.ndim
-    canon_axis = axis if axis >= 0 else axis + rank
-    if canon_axis < 0 or canon_axis >= rank:
+    # ``axis`` refers to the per-example operand (the rank without the batch axis).
+    body_rank = x.ndim - 1
+    axis_body = axis if axis >= 0 else axis + body_rank
+    if axis_body < 0 or axis_body >= body_rank:
         raise ValueError("Invalid axis for log_softmax batching rule")
 
     if x_bdim != 0:
         x = jnp.moveaxis(x, x_bdim, 0)
-
-    if canon_axis == x_bdim:
-        axis_body = 0
-    elif canon_axis < x_bdim:
-        axis_body = canon_axis
-    else:
-        axis_body = canon_axis - 1
 
     out = jax.vmap(
         lambda t: _JAX_LOG_SOFTMAX_ORIG(t, axis=axis_body, where=None),
